@@ -175,8 +175,20 @@ func (ms *MessageStreamer) Go(ctx context.Context, conn StreamConnection) error 
 				mu.Unlock()
 			}
 			if len(msg.Delay) != 0 {
-				if err := ms.doDelay(ctx, msg.Delay, time.Duration(msg.DelaySeconds*float64(time.Second))); err != nil {
+				delay := time.Duration(msg.DelaySeconds * float64(time.Second))
+				if err := ms.doDelay(ctx, msg.Delay, delay); err != nil {
 					return err
+				}
+				if delay <= 0 {
+					// a zero deadline is how gRPC clients nack: the messages are up
+					// for redelivery and no longer outstanding on this stream, so they
+					// must stop counting against its flow control
+					mu.Lock()
+					for _, id := range msg.Delay {
+						delete(pending, id)
+					}
+					tryWake()
+					mu.Unlock()
 				}
 			}
 		}
